@@ -4,6 +4,41 @@ import json, os
 V = os.path.dirname(os.path.dirname(os.path.abspath(__file__)))
 ALL = ["C%02d" % i for i in range(1, 21)]
 CHECKS = {
+ "C01": dict(
+   text='TLC model-checks the buffering and padding logic shared by the three digests for every update partition of every message up to 20 bytes at block size 8 (specs/crypto/HashStream.tla); HMAC (RFC 2104), PBKDF2 (RFC 8018) and the algebraic meaning of CRC32C (polynomial division over GF(2)) are TLA+ definitions (Hash.tla) over the digest primitives; messages of every length 0..130 and around the padding / block boundaries, update partitions (one call, byte-wise, <= 3 cuts at boundary offsets, zero-length updates), alignments 0..15, key lengths 0..131, (salt, c, dkLen) grids and CRC alignments x lengths are run through the real code and TLC validates every digest, byte count, HMAC, derived key and CRC.',
+   note='SHA-256 / SHA-1 / MD5 compression are JDK primitives (java.security.MessageDigest) behind Java module overrides; everything above them is TLA+.',
+   technique='TLA+ functional specification over JDK primitives + TLC model checking of the stateful part + trace validation of every call of the real code',
+   design='6/C01'),
+ "C02": dict(
+   text='TLC model-checks the counter / partial-block logic of AES-CTR (specs/crypto/AesCtrImpl.tla, scaled: every partition of a stream into calls on the portable and the accelerated path yields keystream bytes in block order); AES-CTR itself is the TLA+ definition of AesCtr.tla (keystream block i = AES_k(nonce_be64 || i_be64)); single blocks, streams cut at and around 16-byte boundaries (0-length calls, in place, re-initialisation) and long streams across the 256- and 65536-block counter carries in five call styles are run through the real code and validated by TLC (long streams on windows at the carry offsets).',
+   note='The AES block function is a JDK primitive (javax.crypto AES/ECB).',
+   technique='TLA+ functional specification over JDK primitives + TLC model checking of the stateful part + trace validation of every call of the real code',
+   design='6/C02'),
+ "C03": dict(
+   text='The C01/C02 specifications and input classes (alignments 0..15, lengths around the 8- and 16-byte thresholds, partitions that switch between accelerated and portable code inside one stream, counter carries) are executed by five builds of the same sources - all features, none, SSE2 only, SSE4.2 only, AES-NI only - each validated by TLC against the same specifications, and all outputs are compared with the portable build.',
+   note='x86-64 host with SHA-NI, SSSE3, SSE2, SSE4.2, AES-NI; ARM paths are not compiled.',
+   technique='TLA+ functional specification over JDK primitives + TLC model checking of the stateful part + trace validation of every call of the real code',
+   design='6/C03'),
+ "C10": dict(
+   text='DH.tla defines the public value 2^(2^258+x) mod p and the shared key y^(2^258+x) mod p over a big-integer primitive, with p derived from the RFC 3526 formula; DHMC.tla model-checks agreement and blinding-independence on a small group of the same shape; boundary private, peer and blinding values (blinding scripted by replacing the entropy call at link time), values with leading-zero results and single-bit variations of p for the sanity check are run through the real code and validated by TLC.',
+   note='Modular exponentiation is java.math.BigInteger.modPow.',
+   technique='TLA+ functional specification over JDK primitives + TLC model checking of the stateful part + trace validation of every call of the real code',
+   design='6/C10'),
+ "C11": dict(
+   text='DrbgMC.tla model-checks the reseed / chunk / failure schedule with an abstract HMAC (no output from an unseeded or stale state; a failing source fails the call); Drbg.tla is SP 800-90A HMAC_DRBG in TLA+ over Hash.tla; request-size sequences (0, 1, 31..33, 65535..65537, 131073, runs across several reseed intervals) with the OS entropy source scripted at the open/read level (short reads, error, EOF, open failure at each of its first requests) are run through the real generator and TLC re-runs every call: byte-exact output, entropy requested exactly when and as much as specified, failure exactly when the source failed.',
+   note='SHA-256 compression is a JDK primitive; RDRAND is excluded from the build.',
+   technique='TLA+ functional specification over JDK primitives + TLC model checking of the stateful part + trace validation of every call of the real code',
+   design='6/C11'),
+ "C19": dict(
+   text="SigV4.tla is the published Signature Version 4 algorithm (canonical request, string to sign, signing-key chain) for the four documented request shapes, with the timestamp derived from the epoch time by civil-date arithmetic, over Hash.tla's HMAC; requests over the URI-unreserved alphabet (lengths 0..200), printable secrets around the HMAC block size, absent / empty / non-empty bodies, expiry extremes and wrapped time() values at day, leap-day and 2038 boundaries are signed by the real code and every returned hash, timestamp, Authorization header and query string is validated by TLC.",
+   note='SHA-256 compression is a JDK primitive.',
+   technique='TLA+ functional specification over JDK primitives + TLC model checking of the stateful part + trace validation of every call of the real code',
+   design='6/C19'),
+ "C20": dict(
+   text="Life-cycle conformance: every hash / HMAC event carries whether the finalised context is all zero; AES key expansion / free, AES-CTR init / stream / free, DH generate / compute and failing key-file reads run with the secrets registered as byte patterns (big-endian and limb order) which a scanner looks for in every block released through free() and through OpenSSL's allocator at the moment of release, in the all-features and the software build; TLC validates zero = TRUE and tainted = 0 on every event.",
+   note='The scanner (harness/drv_crypto.c) is the observer; only distinctive 8-byte windows are searched; stack copies are out of scope.',
+   technique='trace validation of life-cycle events against the TLA+ trace specification, with a free-time memory scanner as observer',
+   design='6/C20'),
  "C15": dict(
    text="Hostile-input generation defined by the specifications: TLC enumerates every string of length <= 4/5 over 13 JSON structure characters, every bracketed / Unix-path string of length <= 5/6 over 8 address characters and every candidate encoding of length <= 4 over 14 symbols (CodecGen.tla); the check adds every prefix of valid JSON documents with every key, and structured mutations (nesting to depth 64, strings ending in an escape, corrupted / truncated base-64 and serialised addresses, Unix paths around the 108-byte limit, digit runs to 5000 characters, key / passphrase files with over-long, unterminated and NUL-containing lines, hostile argument vectors). Every input is handed to the real parser in an exact-size heap allocation under ASan/UBSan; TLC validates each call's documented value range (pointer inside [buf, end], outlen <= inlen/4*3, verdict in the documented set) and, where C16-C18 define it, the answer (CodecTrace, ParsenumTrace, GetoptTrace).",
    note="The memory-safety verdict itself comes from ASan/UBSan on the generated executions (observed, not proved); termination by per-run timeouts; no host-name address forms; JSON depth <= 64.",
